@@ -1,7 +1,7 @@
 """All contracts, by name."""
-from . import symbolic_nodes, negation, quantifiers, mappings, toplevel, cache, required, predicate_form, hashed, constructors, aggregations, rules, rule_build, registry_c14, inference
+from . import symbolic_nodes, negation, quantifiers, mappings, toplevel, cache, required, predicate_form, hashed, constructors, aggregations, rules, rule_build, registry_c14, inference, builders, small
 
-MODULES = [symbolic_nodes, negation, quantifiers, mappings, toplevel, cache, required, predicate_form, hashed, constructors, aggregations, rules, rule_build, registry_c14, inference]
+MODULES = [symbolic_nodes, negation, quantifiers, mappings, toplevel, cache, required, predicate_form, hashed, constructors, aggregations, rules, rule_build, registry_c14, inference, builders, small]
 
 
 def all_contracts():
